@@ -53,11 +53,15 @@ type elasticBulkDec struct {
 
 func (e *elasticBulkDec) Decode() error {
 	scanner := bufio.NewScanner(e.ctx.bodyReader)
+	scanner.Buffer(make([]byte, 64*1024), 256*1024*1024)
 	for scanner.Scan() {
 		err := e.decodeLine(scanner.Bytes())
 		if err != nil {
 			return customErrors.NewUnmarshalError(err)
 		}
+	}
+	if err := scanner.Err(); err != nil {
+		return customErrors.NewUnmarshalError(err)
 	}
 	return nil
 }
